@@ -556,7 +556,12 @@ func (c *Cache[K, V]) processItems() {
 			case itemNew:
 				victims, added := c.cachePolicy.Add(i.Key, i.Cost)
 				if added {
-					c.storedItems.Set(i)
+					if !c.storedItems.Set(i) {
+						// The store kept what it had (another key under the same
+						// hash, or ShouldUpdate refused), so this value is not
+						// retained: let go of it like any other rejected item.
+						c.onReject(i)
+					}
 					c.Metrics.add(keyAdd, i.Key, 1)
 					trackAdmission(i.Key)
 				} else {
